@@ -128,6 +128,15 @@ decreasing_by
   all_goals simp only [List.map_cons, List.sum_cons, List.length_cons, List.length_drop]
   all_goals omega
 
+/-- One `Read` result as the UDP transports may see it: the bytes, and whether an error that the
+    `ignoreError` callback swallows came TOGETHER with them (`([], true)` = the error alone).
+    `readTlvStream` processes the n > 0 bytes first and considers the error afterwards (io.Reader
+    contract; repair of F-11a), and an ignored error just continues the loop — so an ignored error
+    is transparent: the run is the run over the bytes. -/
+abbrev ReadRes := Bytes × Bool
+
+def runE (s : St) (script : List ReadRes) : List Bytes × Outcome := run s (script.map (·.1))
+
 /-! ### application side: `StreamFace.Run` -/
 
 /-- The loop of `StreamFace.Run` over the bytes received so far: `ReadTLNum`, `ReadTLNum`,
